@@ -100,10 +100,9 @@ func kfSubstr(args []KeyBuilderStage) (KeyBuilderStage, error) {
 			left = lenS
 		}
 
-		right := left + length
-
-		if right > lenS {
-			right = lenS
+		right := lenS
+		if length < lenS-left { // compared this way so that left+length cannot overflow
+			right = left + length
 		}
 		return s[left:right]
 	}), nil
